@@ -1088,6 +1088,9 @@ func genCase(r *common.Rand) (*dag.Graph, []op) {
 	}
 	// phase 2: mixed history
 	steps := 2 + r.Intn(7)
+	if run.Thorough() && r.Chance(1, 4) {
+		steps += r.Intn(16) // long histories
+	}
 	for i := 0; i < steps; i++ {
 		switch x := r.Intn(100); {
 		case x < 30:
